@@ -2075,14 +2075,14 @@ fn split_unsigned_range(
             if range[0] < range[1] - 1 {
                 ranges.push(Ctor::UnsignedInclusiveRange(
                     ty,
-                    range[0] as u64 + 1,
-                    range[1] as u64 - 1,
+                    (range[0] + 1) as u64,
+                    (range[1] - 1) as u64,
                 ));
             } else {
                 ranges.push(Ctor::UnsignedInclusiveRange(
                     ty,
                     range[0] as u64,
-                    range[1] as u64 - 1,
+                    (range[1] - 1) as u64,
                 ));
             }
         }
